@@ -726,9 +726,29 @@ class Inliner:
         init = methods.get("__init__")
         if init is None or self.inlinable_def_init(init) is not None:
             return False
+        # single-return properties are read where they are used (`v.has_token` → the expression over the fields)
+        props = {}
+        for n, g in methods.items():
+            if [ast.unparse(d) for d in g.node.decorator_list] == ["property"]:
+                body_ = [x for x in g.node.body if not (isinstance(x, ast.Expr) and isinstance(x.value, ast.Constant))]
+                if len(body_) == 1 and isinstance(body_[0], ast.Return) and body_[0].value is not None and len(g.node.args.args) == 1:
+                    props[n] = (g.node.args.args[0].arg, body_[0].value)
+        methods = {n: g for n, g in methods.items() if n not in props}
         meths = {n: g for n, g in methods.items() if n != "__init__"}
         if not meths or any(g.node.decorator_list for g in methods.values()):
             return False
+
+        def prop_expr(name):
+            me_, e_ = props[name]
+
+            class PF(ast.NodeTransformer):
+                def visit_Attribute(self_, a):
+                    if isinstance(a.value, ast.Name) and a.value.id == me_:
+                        return ast.copy_location(ast.Name(id=f"{v}__{a.attr.lstrip('_')}", ctx=ast.Load()), a)
+                    self_.generic_visit(a)
+                    return a
+
+            return PF().visit(copy.deepcopy(e_))
         if any(n.startswith("__") and n != "__call__" for n in meths):
             return False
         # nested functions of the user must not know the object
@@ -757,6 +777,8 @@ class Inliner:
             class T(ast.NodeTransformer):
                 def visit_Attribute(self_, a):
                     if isinstance(a.value, ast.Name) and a.value.id == me:
+                        if a.attr in props and isinstance(a.ctx, ast.Load):
+                            return ast.copy_location(prop_expr(a.attr), a)
                         if a.attr in methods:
                             if not isinstance(a.ctx, ast.Load) or a.attr == "__init__":
                                 bad.append(a)
@@ -824,7 +846,7 @@ class Inliner:
                 if isinstance(par, ast.Attribute) and par.value is x:
                     if par.attr in methods and (par.attr == "__init__" or not isinstance(par.ctx, ast.Load)):
                         return False
-                    if par.attr not in methods and par.attr not in init_fields:
+                    if par.attr not in methods and par.attr not in init_fields and par.attr not in props:
                         return False
                     continue
                 if isinstance(x.ctx, ast.Store):
@@ -840,6 +862,8 @@ class Inliner:
 
             def visit_Attribute(self_, a):
                 if isinstance(a.value, ast.Name) and a.value.id == v:
+                    if a.attr in props and isinstance(a.ctx, ast.Load):
+                        return ast.copy_location(prop_expr(a.attr), a)
                     if a.attr in methods:
                         return ast.copy_location(ast.Name(id=(v if a.attr == "__call__" else f"{v}__{a.attr.lstrip('_')}"), ctx=ast.Load()), a)
                     return ast.copy_location(ast.Name(id=f"{v}__{a.attr.lstrip('_')}", ctx=a.ctx), a)
